@@ -754,6 +754,38 @@ def _io(ctx):
     return need
 
 
+def _inverted_registry(td: FunctionInfo):
+    """(dict name, 'first' | 'last', node) when to_dict builds `{class: type name}` from block_type_names and
+    indexes it with `type(<block>)`"""
+    for n in A.walk_no_nested(td.node):
+        dname = mode = None
+        if isinstance(n, ast.For) and isinstance(n.target, ast.Tuple) and len(n.target.elts) == 2 and A.unparse(n.iter).split(".")[-2:] == ["block_type_names", "items()"]:
+            kv, cv = [A.unparse(e) for e in n.target.elts]
+            for st in n.body:
+                if isinstance(st, ast.Expr) and isinstance(st.value, ast.Call) and isinstance(st.value.func, ast.Attribute) and st.value.func.attr == "setdefault" and len(st.value.args) == 2 and [A.unparse(a) for a in st.value.args] == [cv, kv]:
+                    dname, mode = A.unparse(st.value.func.value), "first"
+                elif isinstance(st, ast.Assign) and isinstance(st.targets[0], ast.Subscript) and A.unparse(st.targets[0].slice) == cv and A.unparse(st.value) == kv:
+                    dname, mode = A.unparse(st.targets[0].value), "last"
+        elif isinstance(n, (ast.Assign, ast.AnnAssign)) and isinstance(n.value, ast.DictComp) and len(n.value.generators) == 1:
+            g = n.value.generators[0]
+            if isinstance(g.target, ast.Tuple) and len(g.target.elts) == 2 and A.unparse(g.iter).split(".")[-2:] == ["block_type_names", "items()"] and not g.ifs:
+                kv, cv = [A.unparse(e) for e in g.target.elts]
+                if A.unparse(n.value.key) == cv and A.unparse(n.value.value) == kv:
+                    tg = n.targets[0] if isinstance(n, ast.Assign) else n.target
+                    dname, mode = A.unparse(tg), "last"
+        if dname is None:
+            continue
+        for u in A.walk_no_nested(td.node):
+            arg = None
+            if isinstance(u, ast.Subscript) and A.unparse(u.value) == dname and isinstance(u.ctx, ast.Load):
+                arg = u.slice
+            elif isinstance(u, ast.Call) and isinstance(u.func, ast.Attribute) and u.func.attr == "get" and A.unparse(u.func.value) == dname and u.args:
+                arg = u.args[0]
+            if isinstance(arg, ast.Call) and isinstance(arg.func, ast.Name) and arg.func.id == "type" and len(arg.args) == 1:
+                return dname, mode, n
+    return None
+
+
 @rule("DISP-8", 25, "writer, reader, registry and dataclass fields of the serialised form agree (keys, types, quoting, pointer fix-ups)")
 def disp8(ctx) -> List[Ob]:
     prog = ctx.prog
@@ -796,7 +828,22 @@ def disp8(ctx) -> List[Ob]:
             rl = r_[0].fn
             break
     key = "writer looks a class up under its own name"
-    if rl is None:
+    inv = _inverted_registry(io["to_dict"]) if rl is None else None
+    if inv is not None:
+        # the registry inverted once into a class -> name mapping that is indexed with the exact class
+        dname, mode, where_inv = inv
+        order = list(reg_names.items())
+        wrong = []
+        for own_key, cname in reg_names.items():
+            names_ = [k2 for k2, c2 in order if c2 == cname]
+            got = names_[0] if mode == "first" else names_[-1]
+            if got != own_key:
+                wrong.append((cname, own_key, got))
+        if wrong:
+            out.append(bad("DISP-8", io["to_dict"].qualname, key, ctx.where(io["to_dict"], where_inv), f"a block of class {wrong[0][0]} is written as '{wrong[0][2]}' instead of '{wrong[0][1]}' ({mode} registration wins in {dname})"))
+        else:
+            out.append(ok("DISP-8", io["to_dict"].qualname, key, ctx.where(io["to_dict"], where_inv), f"exact match through the inverted registry {dname}: each of the {len(reg_names)} registered classes maps to its own type name"))
+    elif rl is None:
         out.append(unresolved("DISP-8", io["to_dict"].qualname, key, ctx.where(io["to_dict"]), "no reverse_lookup helper in to_dict: cannot see how a class is mapped to its type name"))
     else:
         vparam = [p.arg for p in rl.params if p.arg not in ("self", "cls")][0]
